@@ -19,7 +19,7 @@ run_demo() {
     cargo test --offline --test zz_demo >"$SD/demo.$1.log" 2>&1; rc=$?
     rm -f "$WT/tests/zz_demo.rs"
   else
-    sed "s#/tmp/wt-[a-z][0-9]*#$WT#g" "$SD/demo.sh" > "$SD/demo.local.sh"
+    sed "s#/tmp/wt-[A-Za-z0-9_-]*#$WT#g" "$SD/demo.sh" > "$SD/demo.local.sh"
     bash "$SD/demo.local.sh" >"$SD/demo.$1.log" 2>&1; rc=$?
   fi
   return $rc
